@@ -210,6 +210,10 @@ func c12() int {
 	cov["byte_strings"] = nBytes
 	cov["token_strings"] = nToks
 	cov["line_end_texts"] = nLineEnds
+	// scripts reading balances and metadata from the REAL store (realstore.go): the stand-in stores of the enumerations above
+	// answer 0 for an account without moves, the real one answered NULL
+	rsH, rsS := realStoreConformance(rep, "")
+	cov["realstore_histories"], cov["realstore_steps"] = rsH, rsS
 	cov["odd_programs"] = len(odd)
 	cov["near_duplicate_cache_runs"] = nearRuns
 	rep.Assume = []string{"termination is checked by a 180 s per-case watchdog (no case comes near it); the VM has no backward jumps"}
